@@ -927,6 +927,33 @@ func (m *Model) buildClient(c *core.Ctx) {
 			} else if callsFn(a, b) {
 				m.setFn("ociclient.newBlobReader", b)
 				m.setFn("ociclient.newBlobReaderUnverified", a)
+			} else {
+				// two independent constructors: the unverified one is the one used by range reads only
+				onlyFromRange := func(f *ssa.Function) bool {
+					n := 0
+					for _, g := range fns {
+						if g == f || !callsFn(g, f) {
+							continue
+						}
+						n++
+						o := g
+						for o.Parent() != nil {
+							o = o.Parent()
+						}
+						if o.Name() != "GetBlobRange" {
+							return false
+						}
+					}
+					return n > 0
+				}
+				switch {
+				case onlyFromRange(b) && !onlyFromRange(a):
+					m.setFn("ociclient.newBlobReader", a)
+					m.setFn("ociclient.newBlobReaderUnverified", b)
+				case onlyFromRange(a) && !onlyFromRange(b):
+					m.setFn("ociclient.newBlobReader", b)
+					m.setFn("ociclient.newBlobReaderUnverified", a)
+				}
 			}
 		} else if len(ctors) == 1 {
 			m.setFn("ociclient.newBlobReader", ctors[0])
